@@ -146,6 +146,8 @@ package middleware
 //@   inv loop 1: 1 <= retryNum && retryNum <= maxRetries(r.MaxRetries) && calls(H) == old(calls(H)) + retryNum && err != nil && err == ret(H, 1, calls(H) - 1) && producedMessages == ret(H, 0, calls(H) - 1) [attempt-accounting]
 //@   inv loop 1: forall j int :: old(calls(H)) <= j && j < calls(H) ==> ret(H, 1, j) != nil [all-attempts-so-far-failed]
 //@   inv loop 1: ctx != nil && (r.MaxElapsedTime > 0 ==> ctxtimeout(ctx) == r.MaxElapsedTime) [every-wait-also-listens-to-a-context-that-ends-when-MaxElapsedTime-has-passed]
+//@   ghost let retryctx = ctxOf(msg) @loop 1
+//@   inv loop 1: ctx == retryctx || ctxparent(ctx) == retryctx [every-wait-listens-to-the-context-the-message-had-when-retrying-began-or-to-a-child-of-it]
 //@   inv loop 1: ncalls(NB) == old(ncalls(NB)) + retryNum - 1 && ncalls(TA) == old(ncalls(TA)) + retryNum - 1 && recvs(timer) == old(recvs(timer)) + retryNum - 1 [one-backoff-and-one-timer-per-retry]
 //@   inv loop 1: (r.OnRetryHook != nil ==> calls(HOOK) == old(calls(HOOK)) + retryNum - 1) && (r.OnRetryHook == nil ==> calls(HOOK) == old(calls(HOOK))) [one-hook-call-per-failed-retry]
 //@   inv loop 1: r.OnRetryHook != nil ==> (forall j int :: 0 <= j && j < retryNum - 1 ==> arg(HOOK, 0, old(calls(HOOK)) + j) == j + 1 && arg(HOOK, 1, old(calls(HOOK)) + j) == sret(NB, 0, old(ncalls(NB)) + j)) [hook-log]
@@ -266,3 +268,23 @@ package middleware
 //@   inv loop 1: forall j int :: 0 <= j && j < len(messages) ==> messages[j] == old(messages[j]) [batch-unchanged]
 //@   assert @call:(*Message).Ack: isDuplicate [only-duplicates-are-acked-here]
 //@   panics-ensures true
+
+// ---- built-in hashers (C14): how much of the payload goes into the key ----
+
+//@ func NewMessageHasherSHA256$1
+//@   requires m != nil && readLimit >= 64
+//@   nopanic
+//@   ensures result1 == nil ==> result0 == digest(256, base(m.Payload), (readLimit < len(m.Payload) ? readLimit : len(m.Payload))) [the-key-is-the-SHA-256-digest-of-the-payload-up-to-the-read-limit]
+
+//@ func NewMessageHasherAdler32$1
+//@   requires m != nil && readLimit >= 64
+//@   nopanic
+//@   ensures result1 == nil ==> result0 == digest(32, base(m.Payload), (readLimit < len(m.Payload) ? readLimit : len(m.Payload))) [the-key-is-the-Adler-32-checksum-of-the-payload-up-to-the-read-limit]
+
+//@ func NewMessageHasherSHA256
+//@   nopanic
+//@   ensures result != nil && closurevar(result, "middleware.NewMessageHasherSHA256$1", "readLimit") == (readLimit < 64 ? 64 : readLimit) [the-hasher-reads-up-to-the-given-limit-but-at-least-64-bytes]
+
+//@ func NewMessageHasherAdler32
+//@   nopanic
+//@   ensures result != nil && closurevar(result, "middleware.NewMessageHasherAdler32$1", "readLimit") == (readLimit < 64 ? 64 : readLimit) [the-hasher-reads-up-to-the-given-limit-but-at-least-64-bytes]
